@@ -24,7 +24,9 @@ EXN = {"ValueError": "ValueError", "error": "StructError", "IndexError": "IndexE
 # --------------------------------------------------------------------------- inputs
 
 def pattern(pa, pb, n):
-    return bytes(((i * pa + pb) % 251) for i in range(n))
+    """byte i = (i*pa + pb) mod 251 (periodic with period 251)"""
+    period = bytes(((i * pa + pb) % 251) for i in range(251))
+    return (period * (n // 251 + 1))[:n]
 
 
 def swap16(b):
@@ -55,6 +57,8 @@ def default_case(**kw):
                                # AirPlayV2 with _cipher = Chacha20Cipher8byteNonce(key, key) as setup_audio_stream does
         "order": "library",    # "library": StreamClient constructed around a default context, receiver properties
                                # applied afterwards by the real code; "preset": format set before construction
+        "compact": False,      # True: too many datagrams for a case literal - compared with the model through the
+                               # header summary of coq/C16/Long.v (payloads are checked in Python only)
         "boundary": False,     # True: probe of a limit outside the property's domain (model tie only, no oracle)
         "via_file": False,     # True: the source is produced by the normal path - a WAV file on disk opened with
                                # open_source() for the format get_audio_properties() derives from the receiver's
@@ -583,6 +587,65 @@ def describe(case, ob):
     return term, ok
 
 
+def summarize(headers):
+    """Mirror of Long.v [summarize]: compact summary of a list of 12-byte headers."""
+    sm = {"count": 0, "first": b"", "last": b"", "markers": [], "odd": [], "seqbreaks": [], "tsbreaks": [],
+          "ssrcbreaks": []}
+    prev = None
+    for i, h in enumerate(headers):
+        b0, b1, seq, ts, ssrc = struct.unpack(">BBHII", h)
+        if b1 == 0xE0:
+            sm["markers"].append(i)
+        if not (b0 == 0x80 and b1 in (0xE0, 0x60)):
+            sm["odd"].append(i)
+        if prev is not None:
+            if seq != (prev[0] + 1) % SEQMOD:
+                sm["seqbreaks"].append(i)
+            if ts != (prev[1] + FPP) % (1 << 32):
+                sm["tsbreaks"].append(i)
+            if ssrc != prev[2]:
+                sm["ssrcbreaks"].append(i)
+        else:
+            sm["first"] = h
+        sm["last"] = h
+        prev = (seq, ts, ssrc)
+        sm["count"] += 1
+    return sm
+
+
+def describe_long(case, ob):
+    """Compact canonical form (Long.v [olong]); the payloads are compared with the source here."""
+    fs = ob["fs"]
+    ps = FPP * fs
+    src = ob["src"]
+    sent = ob["sent"]
+    ok = case.get("proto", "v1") != "v2cipher" and all(len(d) == 12 + ps for d in sent)
+    if ok:
+        nd = -(-len(src) // ps)
+        body = b"".join(d[12:] for d in sent[:nd])
+        ok = len(src) % 2 == 0 and body == swap16(src) + bytes((-len(src)) % ps) \
+            and all(d[12:] == bytes(ps) for d in sent[nd:])
+    nk = len(ob["keys"])
+    ok = ok and ob["values"] == sent[len(sent) - nk:] and ob["outcome"] == "Returned"
+    sm = summarize([d[:12] for d in sent]) if all(len(d) >= 12 for d in sent) else summarize([])
+    cap = lambda l: common.clist(l[:64], common.cN)
+    n = len(sent)
+    picks = sorted({i for i in (0, 1, 2, n // 2, SEQMOD - ob["seq0"] - 1, SEQMOD - ob["seq0"], SEQMOD - 1, SEQMOD,
+                                SEQMOD + 1, n - 2, n - 1) if 0 <= i < n})
+    f = ob["final"]
+    term = ("{| g_fs := %s; g_latency := %s; g_ssrc := %s; g_seq0 := %s; g_srclen := %s;\n"
+            "   g_sum := {| h_count := %s; h_first := %s; h_last := %s; h_markers := %s; h_odd := %s;\n"
+            "               h_seqbreaks := %s; h_tsbreaks := %s; h_ssrcbreaks := %s |};\n"
+            "   g_samples := %s;\n   g_final := (%s, %s, %s) |}" % (
+                common.cN(fs), common.cN(ob["latency"]), common.cN(case["ssrc"]), common.cN(ob["seq0"]),
+                common.cN(len(src)),
+                common.cN(sm["count"]), common.cbytes(sm["first"]), common.cbytes(sm["last"]), cap(sm["markers"]),
+                cap(sm["odd"]), cap(sm["seqbreaks"]), cap(sm["tsbreaks"]), cap(sm["ssrcbreaks"]),
+                common.clist(["(%s, %s)" % (common.cN(i), common.cbytes(sent[i][:12])) for i in picks]),
+                common.cN(f[0]), common.cN(max(0, f[1] - ob["start_ts"])), common.cN(f[2])))
+    return term, ok
+
+
 # --------------------------------------------------------------------------- generators
 
 FORMATS = [(1, 1), (1, 2), (1, 4), (2, 1), (2, 2), (2, 4)]
@@ -746,6 +809,21 @@ def gen_cases(ctx):
             channels=ch, ssize=ss, nframes=rng.randrange(0, 4 * FPP), proto=rng.choice(["v1", "v2", "v2cipher"]),
             seq0=rnd_seq0(), start_ts=rng.randrange(1 << 33), sample_rate=sr,
             latency=rng.choice(lat_small + [22050 + sr]), pa=rng.randrange(1, 250), pb=rng.randrange(251), prev=prev)))
+    # K. more than 2^16 packets: the sequence number passes its start value again.  Cheapest format (1 x 8 bit, even
+    #    number of frames); on time (every packet is the main packet of its lap) and with a late source (catch-up: one
+    #    main + three compensation packets per lap).  Compared with the model through the header summary (Long.v).
+    longs = [(rng.randrange(SEQMOD), {}, "v1")]
+    if ctx.thorough:
+        longs += [(0, {}, "v2"), (SEQMOD - 1, {}, "v1"), (SEQMOD - 3, {"0": 900.0}, "v1"), (rng.randrange(SEQMOD), {"5": 900.0}, "v2"),
+                  (rng.randrange(SEQMOD), {"70000": 0.5}, "v1")]
+    for seq0, delays, proto in longs:
+        k = rng.randrange(1, 6)
+        reqs = [[None, retransmit_req((seq0 + SEQMOD + k - 3) % SEQMOD, 10)], [None, retransmit_req(seq0, 3)],
+                [SEQMOD + 1, retransmit_req((seq0 + SEQMOD - 9) % SEQMOD, 20)]]
+        cases.append(("wrap-long", default_case(channels=1, ssize=1, nframes=(SEQMOD + k) * FPP - 2 * rng.randrange(0, 176),
+                                                latency=rng.choice([352, 704]), seq0=seq0, delays=delays, proto=proto,
+                                                compact=True, requests=reqs, pa=rng.randrange(1, 250),
+                                                pb=rng.randrange(251), start_ts=rng.randrange(1 << 33))))
     # G. more than 1000 packets: the backlog evicts, requests for evicted and retained packets
     for extra in ([7] if not ctx.thorough else [0, 1, 7, 300, 1500]):
         nfr = (1000 + extra) * FPP - 5
@@ -848,6 +926,8 @@ def run(ctx):
     terms = []
     weights = []
     meta = []
+    long_terms = []
+    long_meta = []
     for kind, case in cases:
         history = run_case(case)
         ctx.traces += 1
@@ -864,7 +944,13 @@ def run(ctx):
                     text = "stream %d of %d on one StreamContext (%s frames): %s" % (
                         idx + 1, len(history), "+".join(str(x["nframes"]) for x, _ in history), text)
                 ctx.violation(key, text, {"case": case, "stream": idx})
-            if not sub.get("via_file"):
+            if sub.get("compact"):
+                term, ok = describe_long(sub, ob)
+                if not ok and not errs:
+                    ctx.tie_broken("correspondence:canonical-form", json.dumps({"case": case, "stream": idx}))
+                long_terms.append(term)
+                long_meta.append({"case": case, "stream": idx})
+            elif not sub.get("via_file"):
                 term, ok = describe(sub, ob)
                 if not ok and not errs:
                     ctx.tie_broken("correspondence:canonical-form", json.dumps({"case": case, "stream": idx}))
@@ -901,6 +987,11 @@ def run(ctx):
         shard.append(t)
         w += wt
     flush()
+    for i, t in enumerate(long_terms):
+        items.append(("long_%02d" % i, "From Coq Require Import List NArith ZArith. Import ListNotations.\n"
+                      "From PV Require Import Common.Cases C16.Model C16.Long.\nOpen Scope N_scope.\n"
+                      "Definition cases : list olong := [\n%s\n].\n"
+                      "Eval vm_compute in (bad_indices check_long cases).\n" % t))
     sm = small_cases(ctx)
     for t in sm:
         ctx.case(t, nontrivial=True)
@@ -912,6 +1003,8 @@ def run(ctx):
         bad = common.parse_eval_nat_list(out) if rc == 0 else None
         if bad is None:
             ctx.tie_broken("correspondence:" + name, out)
+        elif bad and name.startswith("long_"):
+            ctx.tie_broken("correspondence:long-stream", json.dumps(long_meta[int(name[5:])]))
         elif bad and name == "small":
             for b in bad[:5]:
                 ctx.tie_broken("correspondence:small", sm[b])
